@@ -17,7 +17,7 @@ ASSUMPTIONS = ['tm_exact oracle (self-validated each shard)',
                'mirror latitudes/longitudes may differ by one unit of the 11-decimal output rounding (1.5e-11 deg)']
 N = {'quick': 1500, 'thorough': 25000}
 SHARDS = {'quick': 16, 'thorough': 32}
-REQUIRED_COUNTERS = ['unjudged_calls_before_a_judged_one', 'across_antimeridian_cases', 'alias_sequences', 'near_axis_cases', 'roundtrip_geo', 'roundtrip_grid', 'mirror', 'standalone']
+REQUIRED_COUNTERS = ['unjudged_calls_before_a_judged_one', 'across_antimeridian_cases', 'alias_sequences', 'near_axis_cases', 'roundtrip_geo', 'roundtrip_grid', 'mirror', 'standalone', 'standalone_batch_rows']
 
 
 def plan(tier, seed):
@@ -75,6 +75,9 @@ def run_shard(spec, ctx):
                         c3['east'] = round(500000.0 + rnd.choice([1, -1]) * 10 ** rnd.uniform(-4, 0.5), 4)
                 _one(ns, ctx, c3)
                 ctx.count('near_axis_cases')
+        if spec['n']:
+            for _ in range(2):
+                tmwork.judge_standalone_batch(ns, ctx, rnd, 60 if spec['tier'] == 'quick' else 400)
     finally:
         reach.stop()
     ctx.info['lines_reached'] = reach.summary()
@@ -82,4 +85,7 @@ def run_shard(spec, ctx):
 
 def replay(case, ctx):
     ns = core.load_repo(need_standalone=True)
+    if case.get('mode') == 'standalone-batch':
+        tmwork.run_standalone_rows(ns, ctx, case['rows'])
+        return
     _one(ns, ctx, case)
